@@ -604,6 +604,8 @@ func c12IDs(w *core.W, j int) {
 	if j%10 == 0 {
 		zone := model.Name{[]byte("xfr"), []byte("example")}
 		g := model.NewGen(w.Rng(j, 3))
+		g.NoHuge = true // an envelope has to fit the 16-bit length prefix
+		g.MaxOpaque = 40
 		for _, kind := range []int{0, 3} {
 			st := c15MakeStream(g, zone, kind)
 			envs := compose(st.recs, ^uint64(0)) // one record per envelope
@@ -616,10 +618,19 @@ func c12IDs(w *core.W, j int) {
 				}
 				tq.Id = uint16(3000 + j + at)
 				res := c15Run(w, tq, envs, false, c15Fault{kind: "id", at: at}, 0)
+				if res.skipped {
+					continue
+				}
 				w.Eval(1)
 				w.Count("transfer_id_checks", 1)
 				if res.errIndex < 0 || !errors.Is(res.lastErr, dns.ErrId) {
-					w.Violation("C12/stream-foreign-id-accepted/transfer/"+st.kind, fmt.Sprintf("envelope %d of %d carries a foreign ID: error index %d, error %v", at, len(envs), res.errIndex, res.lastErr), nil)
+					w.Violation("C12/stream-foreign-id-accepted/transfer/"+st.kind, fmt.Sprintf("envelope %d of %d carries a foreign ID: error index %d, error %v; envelope %d holds %s", at, len(envs), res.errIndex, res.lastErr, res.errIndex, hx(envs[res.errIndex][0].Wire())), map[string]any{"records": func() []string {
+						var o []string
+						for _, r := range st.recs {
+							o = append(o, hx(r.Wire()))
+						}
+						return o
+					}()})
 				}
 			}
 		}
